@@ -118,7 +118,9 @@ impl Val {
 /// value of Op::PutRel, derived from the value currently stored
 pub fn rel_value(old: Option<&Vec<u8>>, mode: u8, n: u16, k: u32) -> Vec<u8> {
     let old: Vec<u8> = old.cloned().unwrap_or_default();
-    let n = n as usize;
+    // half of the draws are small steps (1..40 bytes), so that length-field boundaries are crossed
+    // without leaving the slot
+    let n = if n & 0x8000 != 0 { (n as usize) % 40 } else { n as usize };
     match mode % 6 {
         0 => {
             let mut v = old;
